@@ -71,7 +71,7 @@ def _default_summaries(ctx):
 
 def run(ctx):
     for fn in (r1_escape_parse, r2_containment, r3_style_dispatch, r4_collection_continues, r5_variants, r6_directives_checked_at_parse_time,
-               r7_error_constructor_total, r8_line_table_covers_ast_lines, r2b_containment_handler_is_total, r9_lookahead_in_bounds, r10_docstring_locator_indices_in_bounds, r11_definite_assignment):
+               r7_error_constructor_total, r8_line_table_covers_ast_lines, r2b_containment_handler_is_total, r9_lookahead_in_bounds, r10_docstring_locator_indices_in_bounds, r12_parser_handlers_reraise, r11_definite_assignment):
         ctx.rep.rule(fn, ctx)
 
 
@@ -884,12 +884,42 @@ def r11_definite_assignment(ctx):
     definite_assignment(ctx, 'C14.R11', {'xdoctest.parser', 'xdoctest.core', 'xdoctest.static_analysis', 'xdoctest.dynamic_analysis', 'xdoctest.docstr.docscrape_google', 'xdoctest.exceptions'}, 40)
 
 
+def r12_parser_handlers_reraise(ctx):
+    """MUST-RAISE: below DoctestParser.parse nothing swallows an error of the source under analysis.  Every `except` handler in parser.py (the
+    labeller, the statement completer, the statement locator) leaves by `raise` on all of its paths: a handler that completes normally would let
+    the parser go on after a broken statement -- the earlier examples of the docstring are returned, the broken rest is dropped, and no warning
+    is ever issued for it"""
+    rep = ctx.rep
+    n = 0
+    for f in ctx.prog.funcs.values():
+        if f.module.name != 'xdoctest.parser' or f.qualname == PARSE:
+            continue
+        if not any(isinstance(x, ast.ExceptHandler) for x in walk_scope(f.node)):
+            continue
+        g = ctx.cfg(f)
+        for h in g.nodes:
+            if h.kind != 'handler' or h.dup:
+                continue
+            names = {x.attr if isinstance(x, ast.Attribute) else x.id for x in ast.walk(h.ast.type) if isinstance(x, (ast.Attribute, ast.Name))} if h.ast.type is not None else {'BaseException'}
+            if names <= {'StopIteration', 'GeneratorExit', 'KeyboardInterrupt'}:
+                continue        # iterator protocol / interruption, not an error of the source under analysis
+            n += 1
+            body = set(id(x) for x in g.nodes if any(fr.kind == 'try' and getattr(fr, 'handler', None) is h.ast for fr in x.frames))
+            wit = graph.path([h], lambda x: id(x) not in body and x is not h and x is not g.raise_exit, efilter=graph.normal_only)
+            rep.ob('C14.R12', ctx.loc(f, h.ast), 'except %s in %s' % (ctx.src(h.ast.type) if h.ast.type is not None else '', f.name), wit is None,
+                   'every path through the handler ends in raise' if wit is None else
+                   'this handler can complete normally: the error of a malformed statement is swallowed inside the parser, the rest of the docstring is labelled as if nothing had '
+                   'happened and the doctest is returned without its broken part and without a warning', witness=None if wit is None else graph.fmt_path(wit, f.module.relpath), anchor=f.qualname)
+    rep.floor('C14.R12', 'exception handlers below parse in parser.py', n, 3)
+
+
 # ---------------------------------------------------------------------------
 from ..selftest import fire, silent      # noqa: E402
 
 PA = 'xdoctest/parser.py'
 CO = 'xdoctest/core.py'
 VARIANTS = [
+    fire('labeller-swallows-incomplete-statement', 'C14.R12', ('xdoctest/parser.py', "                except exceptions.IncompleteParseError:\n                    raise\n", "                except exceptions.IncompleteParseError:\n                    pass\n")),
     fire('revert-fix-F14-locator-candidate-unchecked', 'C14.R10', ('xdoctest/static_analysis.py', "                if cand_start_ < 0:\n", "                if False:\n")),
     fire('locator-candidate-checked-against-the-wrong-end', 'C14.R10', ('xdoctest/static_analysis.py', "                if cand_start_ < 0:\n", "                if cand_start_ >= len(sourcelines):\n")),
     fire('warning-text-formatted-after-user-text-was-appended', 'C14.R2b', ('xdoctest/core.py', "        msg = msg.format(callname, modpath, lineno, repr(ex))\n        if isinstance(ex, exceptions.DoctestParseError):\n", "        if isinstance(ex, exceptions.DoctestParseError):\n"),
